@@ -98,6 +98,9 @@ def clause_gates(R):
         if not E.ctx.quiet:
             calls.append(("solve", [labels(st, a) for a in args]))
         big = ipoly(S, st, "F", i32, -2 ** 31, 2 ** 31 - 1), ipoly(S, st, "G", i32, -2 ** 31, 2 ** 31 - 1)
+        for nm, pl in zip(("F", "G"), big):
+            for i in range(NN):
+                cfg.setdefault("solver_vids", {})[pl.f[0].head[i].vid] = f"{nm}[{i}]"        # every pass of the analysis adds its own
         return [(En({1: (Ag(big),)}), st.copy()), (En({0: ()}), st)]
     symalg.install(S, [(r"^falcon_rust::math::gen_poly$", m_gen_poly), (FELT_FFT + r"::fft$", m_ntt), (r"^falcon_rust::math::gram_schmidt_norm_squared$", m_gs),
                        (r"^falcon_rust::math::ntru_solve_entrypoint$", m_solve)])
@@ -144,6 +147,28 @@ def clause_gates(R):
                 okr = okr and type(r) is Ag and len(r.f) == 4 and [labels(s2, x) for x in r.f] == [want_labels("f"), want_labels("g"), want_labels("F"), want_labels("G")]
             R.check(okr, "C04-flow", "ntru_gen result", "returns (f, g, F, G): the tested f, g and the solver's F, G, coefficient order unchanged",
                     f"returned labels {[[labels(s2, x) for x in r.f] for r, s2 in outs][:1]}", key="flow|ret")
+            # narrowing of F, G: each returned coefficient is the solver's coefficient itself (conversion proved lossless, e.g. a
+            # checked conversion with retry) or that coefficient after ONE cast whose only loss is wrapping to the 16-bit element
+            # type. A detour through a narrower type, a clamp or any other arithmetic changes values the later range guard cannot
+            # see. (The single wrapping cast of today's code is tolerated: no seed is known for which it loses anything.)
+            okn, whyn = okr, ""
+            for r, s2 in outs:
+                if not okn:
+                    break
+                for nm, pl in (("F", r.f[2]), ("G", r.f[3])):
+                    for i in range(NN):
+                        x = pl.f[0].head[i]
+                        lab = f"{nm}[{i}]"
+                        sv_ = cfg.get("solver_vids", {})
+                        itv = s2.itv[x.vid]
+                        p = s2.prov.get(x.vid)
+                        same = sv_.get(x.vid) == lab                                   # the solver's own value (its range refined at most)
+                        srcv = p[1][0] if p and p[1] else None
+                        one_cast = bool(p) and p[0] in ("truncast", "wrapcast") and sv_.get(srcv) == lab and itv == (-32768, 32767)
+                        if not (same or one_cast):
+                            okn, whyn = False, f"{nm}[{i}] reaches the result as a value in {itv} computed by {p[0] if p else 'other arithmetic'}: not the solver's coefficient after one 16-bit cast"
+            R.check(okn, "C04-narrow", "ntru_gen result: F, G", "each returned coefficient of F, G is the solver's coefficient after at most one cast to the 16-bit element type (no detour through a narrower type, no clamping)",
+                    whyn, key="narrow")
     # 1b Gram-Schmidt gate
     for gamma, want, nm in ((thr * (1 - 1e-9), True, "just below"), (thr * (1 + 1e-9), False, "just above"), (0.0, True, "zero"), (math.inf, False, "infinite")):
         outs, cl = go(("nz", "nz"), gamma)
